@@ -196,7 +196,7 @@ var c03Letters = []string{
 // RunC03 decides C03 at the RIB tier.
 func RunC03(rep *report.Report, tier string) {
 	depth := 4
-	ck := NewClock(tier, 100*time.Second, 20*time.Minute, 2+len(c03Inits))
+	ck := NewClock(tier, 100*time.Second, 20*time.Minute, 4+len(c03Inits))
 	names := append([]string{}, c03Letters...)
 	if tier == "thorough" {
 		depth = 6
@@ -217,6 +217,12 @@ func RunC03(rep *report.Report, tier string) {
 		o := &Options{Letters: letters, Checks: Checks{Referrers: true}, Init: Alphabet(init...)}
 		Search(rep, "rib/from-"+name, o, depth-1, ck.Next())
 	}
+	rt.MapOrder = 1 // descending iteration order of every map of the instrumented packages
+	for _, name := range []string{"groups-installed", "cross-instance"} {
+		o := &Options{Letters: letters, Checks: Checks{Referrers: true}, Init: Alphabet(c03Inits[name]...)}
+		Search(rep, "rib/from-"+name+"/descending-map-order", o, depth-1, ck.Next())
+	}
+	rt.MapOrder = 0
 }
 
 var c03Inits = map[string][]string{
@@ -236,7 +242,7 @@ var c16Letters = []string{
 // RunC16 decides the post-change-hook half of C16 at the RIB tier.
 func RunC16(rep *report.Report, tier string) {
 	depth := 4
-	ck := NewClock(tier, 100*time.Second, 20*time.Minute, 9)
+	ck := NewClock(tier, 100*time.Second, 20*time.Minute, 11)
 	if tier == "thorough" {
 		depth = 5
 	}
@@ -250,6 +256,12 @@ func RunC16(rep *report.Report, tier string) {
 			Search(rep, fmt.Sprintf("rib/hook-config-%d/from-%s", hc, name), o, depth-1, ck.Next())
 		}
 	}
+	rt.MapOrder = 1 // descending iteration order of every map (Flush and the held-operation walk emit hooks in map order)
+	for _, name := range []string{"held-operations", "entries-installed"} {
+		o := &Options{Letters: letters, Checks: Checks{Hooks: true}, Hook: HookAfterNIs, Init: Alphabet(ribInits[name]...)}
+		Search(rep, fmt.Sprintf("rib/hook-config-%d/from-%s/descending-map-order", HookAfterNIs, name), o, depth-1, ck.Next())
+	}
+	rt.MapOrder = 0
 	// resolved-entry hook (runs in its own goroutine): whole histories under the controlled runtime
 	rl := Alphabet("ADD nh1@D a", "ADD nhg1@D {1}", "ADD nh1@V", "ADD nhg1@V {1}", "ADD v4 p@D ->1", "ADD v4 p@D ->1 meta", "ADD v4 p@D ->1@V", "DELETE v4 p@D", "ADD v4 p@V ->1",
 		"ADD v6 q@D ->1", "DELETE v6 q@D", "ADD mpls 100@D ->1", "DELETE mpls 100@D", "DELETE nhg1@D", "FLUSH D", "FLUSH all")
